@@ -266,6 +266,11 @@ def peval(v, oracle, depth=0):
                 if d in vs or '_' in vs or (not vs and re.fullmatch(r'[a-z_][A-Za-z0-9_]*', str(a.get('pat', '')).strip())):
                     return peval(a.get('v'), oracle, depth + 1)
         return v
+    if kk == 'matches' and not v.get('guard'):
+        d = oracle(unvar(v.get('scrut')))
+        if d is not None and not isinstance(d, bool):
+            return {'k': 'lit', 't': 'bool', 'ty': 'bool', 'v': any(d == x.split('::')[-1] for x in v.get('variants', []))}
+        return v
     if kk == 'field' and str(v.get('name', '')).isdigit():
         b = peval(v.get('base'), oracle, depth + 1)
         if isinstance(b, dict) and b.get('k') == 'tuple' and int(v['name']) < len(b.get('items', [])):
